@@ -1,7 +1,114 @@
 import CogentModel.Json
-open CogentModel
+import CogentModel.Model.PairHMM
+import CogentModel.Spec.PairHMM
+import CogentModel.Model.GapMerge
+open CogentModel CogentModel.PairHMM
 
-def handle (cmd : String) (_j : J) : Except String J :=
-  throw s!"unknown command {cmd}"
+def optRat (j : J) : Except String (Option Rat) :=
+  match j with
+  | J.null => pure none
+  | _ => do pure (some (← j.toRat))
+
+def ofOptRat : Option Rat → J
+  | none => J.null
+  | some q => J.ofRat q
+
+def toArr {α} (f : J → Except String α) (j : J) : Except String (Array α) := do
+  pure (← j.toListOf f).toArray
+
+def parseHMM (j : J) : Except String (HMM Rat × Nat × Nat × Bool) := do
+  let dirs ← (← j.get "dirs").toListOf (J.toPairOf J.toBool J.toBool)
+  let T ← toArr (toArr optRat) (← j.get "T")
+  let e : Emis Rat := {
+    bins := ← (← j.get "bins").toListOf J.toNat
+    xIndex := ← toArr J.toNat (← j.get "xi")
+    yIndex := ← toArr J.toNat (← j.get "yi")
+    matchSc := ← toArr (toArr (toArr optRat)) (← j.get "M")
+    xgap := ← toArr (toArr optRat) (← j.get "xg")
+    ygap := ← toArr (toArr optRat) (← j.get "yg") }
+  let h : HMM Rat := { dirs := dirs, T := fun a b => (T.getD a #[]).getD b none, em := e.em dirs }
+  pure (h, e.xIndex.size, e.yIndex.size, ← (← j.get "local").toBool)
+
+def pathJ : Option (List (Nat × Nat × Nat)) → J
+  | none => J.null
+  | some p => J.arr (p.map fun (s, i, j) => J.arr [J.ofNat s, J.ofNat i, J.ofNat j])
+
+def maxOpt (xs : List (Option Rat)) : Option Rat :=
+  xs.foldl (fun a b => if egt b a then b else a) none
+
+def gapsOfJ (j : J) : Except String GapMerge.Gaps := j.toListOf (J.toPairOf J.toInt J.toInt)
+def gapsJ (g : GapMerge.Gaps) : J := J.arr (g.map fun (p, l) => J.arr [J.num p, J.num l])
+def exGapsJ : Except String GapMerge.Gaps → J
+  | .ok g => gapsJ g
+  | .error e => J.obj [("err", J.str e)]
+
+def handle (cmd : String) (j : J) : Except String J :=
+  match cmd with
+  | "viterbi" => do
+    let (h, n, m, loc) ← parseHMM j
+    let r := if loc then viterbiLocal h n m else viterbiGlobal h n m
+    -- the spec-level score of the implementation's returned path
+    let p ← (← j.get "path").toListOf J.toNat
+    let i0 ← (← j.get "i0").toNat
+    let j0 ← (← j.get "j0").toNat
+    let ps := if loc then prefixScore h i0 j0 p else globalScore h p
+    let c := consumedFrom h i0 j0 p
+    -- the spec-level score of the model's own path
+    let mp := (r.path.getD []).map (·.1)
+    let (mi0, mj0) := match r.path with
+      | some ((s, i, j) :: _) => (i - (h.dir s).1.toNat, j - (h.dir s).2.toNat)
+      | _ => (0, 0)
+    let ms := if loc then prefixScore h mi0 mj0 mp else globalScore h mp
+    pure (J.obj [("score", ofOptRat r.score), ("path", pathJ r.path), ("path_score", ofOptRat ps),
+                 ("consumed", J.arr [J.ofNat c.1, J.ofNat c.2]), ("model_path_score", ofOptRat ms)])
+  | "allpaths" => do
+    -- brute force over the spec's explicit path enumeration (tiny inputs only)
+    let (h, n, m, loc) ← parseHMM j
+    if loc then
+      let cands := (List.range n).flatMap fun i0 => (List.range m).flatMap fun j0 =>
+        (List.range (n - i0 + 1)).flatMap fun a => (List.range (m - j0 + 1)).flatMap fun b =>
+          ((allPaths h (a + b) a b).filter fun p => p ≠ [] && isMatch h (p.headD 0) && isMatch h (lastState p)).map
+            fun p => prefixScore h i0 j0 p
+      pure (J.obj [("max", ofOptRat (maxOpt cands)), ("count", J.ofNat cands.length)])
+    else
+      let ps := allPaths h (n + m) n m
+      pure (J.obj [("max", ofOptRat (maxOpt (ps.map (globalScore h)))), ("count", J.ofNat ps.length)])
+  | "rows" => do
+    -- gapped rows of a path given as [[s,i,j],…] over two strings
+    let dirs ← (← j.get "dirs").toListOf (J.toPairOf J.toBool J.toBool)
+    let h : HMM Rat := { dirs := dirs, T := fun _ _ => none, em := fun _ _ _ => none }
+    let s1 := (← (← j.get "s1").toStr).toList
+    let s2 := (← (← j.get "s2").toStr).toList
+    let p ← (← j.get "path").toListOf fun t => do
+      match ← t.toListOf J.toNat with
+      | [s, i, jj] => pure (s, i, jj)
+      | _ => throw "bad step"
+    let (r1, r2) := rowsOfPath h s1 s2 p
+    let str := fun (r : List (Option Char)) => String.ofList (r.map fun c => c.getD '-')
+    pure (J.arr [J.str (str r1), J.str (str r2)])
+  | "gapoffset" => do
+    let g ← gapsOfJ (← j.get "gaps")
+    let inv ← (← j.get "invert").toBool
+    let go := GapMerge.GapOffset.mk' g inv
+    let qs ← (← j.get "queries").toListOf J.toInt
+    pure (J.arr (qs.map fun q => J.num (go.get q)))
+  | "merged" => do
+    pure (gapsJ (GapMerge.sortGaps (GapMerge.mergedGaps (← gapsOfJ (← j.get "a")) (← gapsOfJ (← j.get "b")))))
+  | "combined" => do
+    pure (gapsJ (GapMerge.sortGaps (GapMerge.combinedRefseqGaps (← gapsOfJ (← j.get "seq")) (← gapsOfJ (← j.get "union")))))
+  | "inject" => do
+    let r := GapMerge.gapsForInjection (← gapsOfJ (← j.get "other")) (← gapsOfJ (← j.get "ref")) (← (← j.get "seqlen").toInt)
+    pure (exGapsJ (r.map GapMerge.sortGaps))
+  | "p2m" => do
+    -- pairwise_to_multiple on gap lists: ref length, [(refgaps, othergaps, otherlen)]
+    let reflen ← (← j.get "reflen").toInt
+    let pw ← (← j.get "pairs").toListOf fun t => do
+      pure (← gapsOfJ (← t.get "ref"), ← gapsOfJ (← t.get "other"), ← (← t.get "len").toInt)
+    match GapMerge.pairwiseToMultiple reflen pw with
+    | .error e => pure (J.obj [("err", J.str e)])
+    | .ok (rg, others) =>
+      pure (J.obj [("ref", gapsJ (GapMerge.sortGaps rg)), ("others", J.arr (others.map fun g => gapsJ (GapMerge.sortGaps g))),
+                   ("keeps", J.bool (GapMerge.keepsAll reflen pw))])
+  | _ => throw s!"unknown command {cmd}"
 
 def main : IO Unit := driverLoop handle
